@@ -28,32 +28,38 @@ def verdict(det, checks, pid):
         return "no-input" if all("no-failing-input-found" in l for l in ch["lines"] if l.startswith("VIOLATION")) else "input"
     if ch.get("rc") == 0: return "**miss**"
     return "rc=%s" % ch.get("rc")
-lines = []
-for mp in sorted(glob.glob(os.path.join(V, "seeded/C??-7/meta.json"))):
-    m = json.load(open(mp)); sid = os.path.basename(os.path.dirname(mp)); pid = sid[:3]
-    ev = m.get("evaluation", {}); hist = m.get("history", [])
-    final = verdict(m.get("detected"), ev.get("checks", {}), pid)
-    first = verdict(None, hist[0]["checks"], pid) if hist else final
-    try:  # the first committed version of the file is the first evaluation, whatever later re-evaluations did to `history`
-        import subprocess
-        rel = os.path.relpath(mp, V)
-        h = subprocess.run("git -C %s log --diff-filter=A --format=%%H -- %s | tail -1" % (V, rel), shell=True, capture_output=True, text=True).stdout.strip()
-        if h:
-            m0 = json.loads(subprocess.run("git -C %s show %s:%s" % (V, h, rel), shell=True, capture_output=True, text=True).stdout)
-            first = verdict(None, m0.get("evaluation", {}).get("checks", {}), pid)
-    except Exception:
-        pass
-    others = ", ".join("%s: %s" % (q, verdict(None, ev.get("checks", {}), q)) for q in ev.get("checks", {}) if q != pid)
-    summ = re.split(r"(?<=[.;]) ", m.get("summary", "").strip())[0][:260].replace("|", "\\|")
-    lines.append("| %s | %s | %s | %s | %s |" % (sid, summ, first, final, others or "–"))
-tab = ("### 5.2b Round 4 (session 4): one more independent seed per property\n\n"
-       "Generated from `seeded/*-7/meta.json` by `tools/design_tables.py`.  *first* = first evaluation (oldest history entry), *final* = latest "
+def seed_rows(suffix):
+    lines = []
+    for mp in sorted(glob.glob(os.path.join(V, "seeded/C??-%s/meta.json" % suffix))):
+        m = json.load(open(mp)); sid = os.path.basename(os.path.dirname(mp)); pid = sid[:3]
+        ev = m.get("evaluation", {}); hist = m.get("history", [])
+        final = verdict(m.get("detected"), ev.get("checks", {}), pid)
+        first = verdict(None, hist[0]["checks"], pid) if hist else final
+        try:  # the first committed version of the file is the first evaluation, whatever later re-evaluations did to `history`
+            import subprocess
+            rel = os.path.relpath(mp, V)
+            h = subprocess.run("git -C %s log --diff-filter=A --format=%%H -- %s | tail -1" % (V, rel), shell=True, capture_output=True, text=True).stdout.strip()
+            if h:
+                m0 = json.loads(subprocess.run("git -C %s show %s:%s" % (V, h, rel), shell=True, capture_output=True, text=True).stdout)
+                first = verdict(None, m0.get("evaluation", {}).get("checks", {}), pid)
+        except Exception:
+            pass
+        others = ", ".join("%s: %s" % (q, verdict(None, ev.get("checks", {}), q)) for q in ev.get("checks", {}) if q != pid)
+        summ = re.split(r"(?<=[.;]) ", m.get("summary", "").strip())[0][:260].replace("|", "\\|")
+        lines.append("| %s | %s | %s | %s | %s |" % (sid, summ, first, final, others or "–"))
+    return lines
+
+HDR = ("Generated from `seeded/*-%s/meta.json` by `tools/design_tables.py`.  *first* = first evaluation (first committed meta.json), *final* = latest "
        "evaluation; `input` = exit 1 with a concrete failing input, `no-input` = exit 1 with `no-failing-input-found` only, `miss` = exit 0.  "
        "Last column: the same seed against neighbouring properties' checks (latest evaluation).\n\n"
-       "| id | change | first | final | other checks |\n|---|---|---|---|---|\n" + "\n".join(lines) + "\n\n")
+       "| id | change | first | final | other checks |\n|---|---|---|---|---|\n")
+r4 = seed_rows("7"); r5 = seed_rows("8")
+tab = "### 5.2b Round 4 (session 4): one more independent seed per property\n\n" + HDR % "7" + "\n".join(r4) + "\n\n"
+if r5:
+    tab += "### 5.2c Round 5 (end of session 4, written against the strengthened checks)\n\n" + HDR % "8" + "\n".join(r5) + "\n\n"
 if "### 5.2b Round 4" in d:
-    d = re.sub(r"### 5\.2b Round 4.*?(?=^### 5\.3 )", tab, d, flags=re.S | re.M)
+    d = re.sub(r"### 5\.2b Round 4.*?(?=^### 5\.3 )", lambda _m: tab, d, flags=re.S | re.M)
 else:
     d = d.replace("### 5.3 Reading the tables", tab + "### 5.3 Reading the tables")
 open(p, "w").write(d)
-print("4.1: +%d rows (total %d fixed);  round-4 seeds: %d" % (len(new), tot, len(lines)))
+print("4.1: +%d rows (total %d fixed);  round-4 seeds: %d, round-5 seeds: %d" % (len(new), tot, len(r4), len(r5)))
